@@ -111,6 +111,81 @@ def check_batch(n, mix, repeats, crit, parallel, same_ids=False, loaded=False):
     return out
 
 
+def check_objective_values(kind, parallel, via):
+    """What the objective RETURNS (not raises): numpy arrays and tuples, zeros, non-finite values, surplus auxiliary outputs,
+    and designs that are almost but not exactly the same point. Every design keeps its vector, is evaluated once, nothing is
+    logged as failed, and its costs are the returned values."""
+    import numpy as np
+    from artap.algorithm import DummyAlgorithm
+    from artap.algorithm_sweep import SweepAlgorithm
+    from artap.individual import Individual
+    from artap.operators import CustomGenerator
+    from .c_support import make_problem, reset_ids
+    reset_ids()
+    near = kind == "near"
+    vecs = [[0.5 + 3e-9 * k, 0.25] for k in range(6)] if near else [[0.0, 0.0], [0.5, 0.25], [1.0, 1.0], [0.25, 0.75]]
+    snap = {}
+
+    def f(v):
+        base = v[0] * 1.000000123456789 + v[1]
+        if kind == "ndarray":
+            r = np.array([base * 0.0 if v == vecs[0] else base])       # np.array([0.0]) is falsy
+        elif kind == "tuple":
+            r = (base,)
+        elif kind == "npscalar-list":
+            r = [np.float64(base)]
+        elif kind == "zero-list":
+            r = [0.0]
+        elif kind == "nonfinite":
+            r = [[float("inf"), float("nan"), float("-inf"), 1.5][(vecs.index(v) if v in vecs else 3) % 4]]
+        elif kind == "surplus":
+            r = [base, 123.456]            # an auxiliary output after the declared objective
+        else:
+            r = [base]
+        snap[tuple(v)] = [repr(float(x)) for x in r]
+        return r
+    problem = make_problem(n_params=2, bounds=[[0.0, 1.0]] * 2, criteria=["minimize"], f=f)
+    desc = "objective kind=%s parallel=%r via=%s" % (kind, parallel, via)
+    batch = [Individual(list(v)) for v in vecs]
+    from ..core.sched import default_parallel
+    import contextlib
+    try:
+        with (default_parallel() if parallel else contextlib.nullcontext()):
+            if via == "sweep":
+                gen = CustomGenerator(problem.parameters)
+                gen.init([list(v) for v in vecs])
+                alg = SweepAlgorithm(problem, generator=gen)
+                if parallel:
+                    alg.options['max_processes'] = 2
+                alg.options['verbose_level'] = 0
+                alg.run()
+                batch = list(problem.individuals)
+            else:
+                alg = DummyAlgorithm(problem)
+                if parallel:
+                    alg.options['max_processes'] = 2
+                alg.evaluate(batch)
+    except Exception as e:
+        return [("C05:objective-values:%s:exception:%s" % (kind, type(e).__name__), "raised %r; %s" % (e, desc))]
+    out = []
+    calls = [c[1] for c in problem.h_log]
+    want = [tuple(v) for v in vecs]
+    if (sorted(calls) if parallel else calls) != (sorted(want) if parallel else want):
+        out.append(("C05:objective-values:%s:call-log" % kind, "objective saw %r, the designs are %r; %s" % (calls, want, desc)))
+    if problem.failed:
+        out.append(("C05:objective-values:%s:logged-as-failed" % kind, "%d designs logged as failed although the objective returned; %s" % (len(problem.failed), desc)))
+    if [tuple(i.vector) for i in batch] != want:
+        out.append(("C05:objective-values:%s:vector-replaced" % kind, "designs now at %r, were %r; %s" % ([tuple(i.vector) for i in batch], want, desc)))
+    else:
+        for ind in batch:
+            got = [repr(float(x)) for x in ind.costs]
+            if got != snap.get(tuple(ind.vector)):
+                out.append(("C05:objective-values:%s:costs-are-not-the-returned-values" % kind, "design %r costs %r, objective returned %r; %s" % (
+                    list(ind.vector), got, snap.get(tuple(ind.vector)), desc)))
+                break
+    return out
+
+
 # ---------------------------------------------------------------- (B) signed costs
 def check_signed(costs, crits, prec):
     from artap.algorithm import DummyAlgorithm
@@ -379,7 +454,7 @@ def _shard(shard, col: Collector):
                             rec("batch", {"n": n, "mix": mix, "repeats": repeats, "crit": crit, "parallel": parallel, "loaded": True},
                                 check_batch(n, mix, repeats, crit, parallel, False, True), True)
         # batches far larger than the enumerated ones
-        for n in (31, 32, 33, 63, 64, 65, 100, 128, 129, 257) + (() if parallel else (1000, 1025)):
+        for n in (31, 32, 33, 63, 64, 65, 100, 128, 129, 257, 513, 600, 1000, 1025):
             for pat in (2, 3, 0):
                 mix = tuple((i % pat == 0) if pat else False for i in range(n))
                 for crit in ("minimize", "maximize"):
@@ -388,6 +463,12 @@ def _shard(shard, col: Collector):
                 rec("batch", {"n": n, "mix_every": pat, "repeats": 1, "crit": "minimize", "parallel": parallel, "loaded": True},
                     [(k, m[:400]) for k, m in check_batch(n, mix, 1, "minimize", parallel, False, bool(pat))], True)
         col.sample({"kind": "batch", "n": 3, "already_evaluated": [False, True, False], "repeats": 2, "parallel": parallel}, 1)
+    elif kind == "objvalues":
+        for kind_ in ("list", "ndarray", "tuple", "npscalar-list", "zero-list", "nonfinite", "surplus", "near"):
+            for parallel in (False, True):
+                for via in ("batch", "sweep"):
+                    rec("objvalues", {"kind": kind_, "parallel": parallel, "via": via}, check_objective_values(kind_, parallel, via), True)
+        col.sample({"kind": "what the objective returns", "kinds": ["ndarray", "tuple", "zero", "nonfinite", "surplus", "near-identical designs"]}, 1)
     elif kind == "signed":
         _, m = shard
         crits = ("minimize", "maximize", None)
@@ -447,6 +528,8 @@ def replay(sub, case):
         return check_batch(case["n"], mix, case["repeats"], case["crit"], case["parallel"], False, case.get("loaded", False))
     if sub == "batch":
         return check_batch(case["n"], tuple(case["mix"]), case["repeats"], case["crit"], case["parallel"], case.get("same_ids", False), case.get("loaded", False))
+    if sub == "objvalues":
+        return check_objective_values(case["kind"], case["parallel"], case["via"])
     if sub == "signed":
         return check_signed(tuple(case["costs"]), tuple(case["crits"]), case["prec"])
     if sub == "constraints":
@@ -465,7 +548,7 @@ def replay(sub, case):
 
 def run(tier, seed):
     import artap.algorithm_scipy, artap.algorithm_nlopt, artap.algorithm_sweep  # noqa: F401,E401
-    shards = [("batch", False), ("batch", True), ("signed", 1), ("signed", 2), ("constraints",), ("sweep",)]
+    shards = [("batch", False), ("batch", True), ("objvalues",), ("signed", 1), ("signed", 2), ("constraints",), ("sweep",)]
     shards += [("scalar", "scipy", m, seed) for m in SCIPY_METHODS]
     shards += [("scalar", "nlopt", m, seed) for m in NLOPT_METHODS]
     col = run_shards(_shard, shards)
